@@ -39,7 +39,7 @@ func (c07) Batches(tier string, seed uint64) []core.Batch {
 
 func (c07) Mandatory(tier string) []string {
 	return []string{"doc:comment-between-continuations", "doc:crlf-blank-separator", "doc:empty-first-line", "doc:no-final-newline-after-continuation", "doc:dot-line",
-		"doc:tab-marker", "doc:blank-run>=2", "doc:leading-blank-lines", "doc:zero-paragraphs", "doc:mixed-line-endings", "doc:indented-continuation",
+		"doc:tab-marker", "doc:line>=4096-bytes", "doc:blank-run>=2", "doc:leading-blank-lines", "doc:zero-paragraphs", "doc:mixed-line-endings", "doc:indented-continuation",
 		"path:Next", "path:All", "path:Unmarshal-slice", "path:Decoder.Decode", "reader:string", "reader:onebyte", "reader:half", "reader:chunks", "reader:data+EOF",
 		"inv:paragraph-returned", "inv:error-returned"}
 }
@@ -240,6 +240,9 @@ func (p c07) docCase(c *core.C, d model.Doc, seed uint64) {
 			if f.First == "" {
 				c.Cover("doc:empty-first-line")
 			}
+			if len(f.First) >= 4096 {
+				c.Cover("doc:line>=4096-bytes")
+			}
 			for ci, ct := range f.Cont {
 				nontrivial = true
 				if len(ct.Comments) > 0 && ci > 0 {
@@ -247,6 +250,9 @@ func (p c07) docCase(c *core.C, d model.Doc, seed uint64) {
 				}
 				if ct.Content == "." {
 					c.Cover("doc:dot-line")
+				}
+				if len(ct.Content) >= 4096 {
+					c.Cover("doc:line>=4096-bytes")
 				}
 				if ct.Marker == "\t" {
 					c.Cover("doc:tab-marker")
